@@ -12,7 +12,14 @@
 (*              rules; attribute dispatch on the pool's Utf8 name, lib.rs  *)
 (*              pool_has_utf8) - as the JVMS prescribes them: pool indices *)
 (*              count slots (a Long/Double takes two, 4.4.5), an attribute *)
-(*              ends where its attribute_length says (4.7).                *)
+(*              ends where its attribute_length says (4.7).  An attribute  *)
+(*              whose name is a modelled one but whose body does not have  *)
+(*              that layout within its attribute_length is kept as bytes   *)
+(*              (Other): JVMS Table 4.7-C defines the predefined names by  *)
+(*              location, elsewhere the name means nothing and readers     *)
+(*              must skip the body; falling back on the body's shape keeps *)
+(*              both halves of the property (every well-formed file is     *)
+(*              read, every raw value is read back equal) satisfiable.     *)
 (*                                                                         *)
 (* A raw value is a record tree that mirrors the crate's public structs    *)
 (* field by field (JSON-able): a structure is a record of its fields, a    *)
@@ -432,8 +439,10 @@ DecT(t, b, p, pool, lim) ==
     THEN IF ~Fits(b, p, 2, lim) THEN Bad
          ELSE LET idx == Rd(b, p, 2)
                   k == AttrKindAt(pool, idx)
+                  dec(kk) == DecFs(kk, AttrVariants[kk].fs, 1, b, p + 2, ("k" :> kk) @@ ("attribute_name_index" :> idx), pool, lim)
               IN IF k = "?" THEN Bad
-                 ELSE DecFs(k, AttrVariants[k].fs, 1, b, p + 2, ("k" :> k) @@ ("attribute_name_index" :> idx), pool, lim)
+                 ELSE IF k = "Other" \/ dec(k).p # 0 THEN dec(k)
+                 ELSE dec("Other")       \* the name is a modelled one but the body is not of that layout: kept as bytes
     ELSE IF ~Fits(b, p, Union[t].tw, lim) THEN Bad
     ELSE LET tag == Rd(b, p, Union[t].tw)
              vs == Union[t].vs
